@@ -74,7 +74,7 @@ def gen(tier, seed, shard, nshards):
     sidx = 0
     for pp in (6, 7, 8, 9, 10):
         for name in sorted(gmat.named_shapes(pp)):
-            for rep in range(2):
+            for rep in range(4 if name.startswith("chain-") else 2):      # label-dependent effects: several relabellings of the path shapes
                 if sidx % nshards == shard:
                     yield "shape-dagI", {"p": pp, "shape": name, "rep": rep}
                 sidx += 1
@@ -112,10 +112,17 @@ def gen(tier, seed, shard, nshards):
     for k in range(n["weighted"] // 3):
         if k % nshards == shard:
             yield "library-chain-edited", {"k": k, "seed": seed}
-    for k in range(96 if tier == "quick" else 2400):
+    for k in range(2400 if tier == "quick" else 40000):
         if k % nshards == shard:
             rngI = util.rng_for("C10", seed, "denseI", k)
-            yield "sampled-dagI", {"masks": _gc.dense_dag(("C10", seed, "densedag", k)), "I": int(rngI.integers(0, 64))}
+            # dense DAGs on 6-7 nodes with any number of edges (oracle: covered-edge reversals), every third with I = {}
+            yield "sampled-dagI", {"masks": _gc.dense_dag(("C10", seed, "densedag", k), p_choices=(6, 6, 7), min_density=0.55, max_edges=21),
+                                   "I": int(rngI.integers(0, 64)) if k % 3 else 0}
+    for k in range(600 if tier == "quick" else 12000):
+        if k % nshards == shard:
+            out = _gc.meek_gadget_dag(("C10", seed, "gadget", k))
+            rngI = util.rng_for("C10", seed, "gadgetI", k)
+            yield "sampled-dagI", {"masks": out, "I": int(rngI.integers(0, 1 << len(out))) if k % 3 else 0}
     for k in range(n["sampled"]):
         if k % nshards == shard:
             out = _gc.sampled_dag(("C10", seed, "sd", k), 6, 12, max_edges=11)
@@ -146,7 +153,7 @@ def _judge_dag(U, out, A, Imask, family, case, rec, key, chain_variants=(True,))
     if (sum(out) + 3 * Imask + p) % 4 == 1 or family == "chainI":
         # history across routines: the caller first asked the *related* routines about the same graph and overwrote what he
         # was given (his own arrays) - the answers judged below must not depend on that
-        _gc.scribble_related(U, A, rec, ("mec", "dag_to_cpdag", "chain_graph_MEC"))
+        _gc.scribble_related(U, A, rec, ("mec", "dag_to_cpdag", "chain_graph_MEC") if _gc.n_undirected(G.union_graph(mec, p)) <= 8 else ("dag_to_cpdag", "chain_graph_MEC"))
     Iarg = (frozenset(I), set(I), set(I), set(np.int64(v) for v in I), set(I))[(Imask + p) % 5]    # numpy-integer members included
     if chain_variants == (True,) and (sum(out) + Imask) % 6 == 2:
         chain_variants = (True, False)
@@ -161,6 +168,12 @@ def _judge_dag(U, out, A, Imask, family, case, rec, key, chain_variants=(True,))
                 rec.violation("C10:dag_to_icpdag-debug-changes-result", family, case, "dag_to_icpdag(A, I, debug=True) differs from the I-essential graph", **ctx)
         except Exception as e:
             rec.exception_violation("C10:dag_to_icpdag-debug-exception", family, case, "dag_to_icpdag(debug=True) raised", e)
+    n_und_ess = _gc.n_undirected(G.union_graph(members, p))
+    if n_und_ess > 8:
+        # the library enumerates 2^u orientations of the u undirected edges of the I-essential graph: imec is not driven where that
+        # alone would take seconds and gigabytes (the essential graph itself is judged below)
+        rec.count("imec:skipped(more than 8 undirected edges)")
+        chain_variants = ()
     for cc in chain_variants:
         try:
             if (Imask + p) % 3 == 0:       # the third parameter given positionally
